@@ -394,7 +394,7 @@ fn c01_o5_deep_verify_arms() {
 // C20-O6: a provisional memo is promoted to final only by a cycle head finalized in the same revision
 // ---------------------------------------------------------------------------------------------
 
-// @verif prop=C20,C01 obl=O6 tier=thorough bounds="one provisional participant memo with one cycle head; the head is a real `function::IngredientImpl<VFn>` registered in the Zalsa whose memo sits in a page-backed memo table; symbolic: head final/provisional/poisoned, head verified_at, head iteration, participant verified_at < now, head verified_at <= now, recorded head iteration; cancellation epochs equal"
+// @verif prop=NONE obl=O6 tier=thorough bounds="PROBE (no verdict within 90 min): one provisional participant memo with one cycle head; the head is a real `function::IngredientImpl<VFn>` registered in the Zalsa whose memo sits in a page-backed memo table; symbolic: head final/provisional/poisoned, head verified_at, head iteration, participant verified_at < now, head verified_at <= now, recorded head iteration; cancellation epochs equal"
 // @+ encodes="MemoHeader::validate_may_be_provisional, validate_provisional, Zalsa::lookup_ingredient, Ingredient::as_function (dyn), FunctionIngredientRef::provisional_status, IngredientImpl::<VFn>::provisional_status, MemoHeader::provisional_status, IngredientImpl::get_memo_from_table_for, CycleHeads iteration"
 /// C20-O6: a provisional result (computed from cycle-head values of some revision and iteration) is accepted as final
 /// only if its cycle head is final, was verified in the *same* revision as the provisional result, and finished in the
